@@ -181,6 +181,7 @@ type Book struct {
 	NCXPath      string    // "" = no NCX (required for EPUB 2, optional for 3)
 	NavPath      string    // "" = no nav document (required for EPUB 3)
 	NavInSpine   int       // -1 = nav document not in spine; otherwise its spine position
+	NavIntro     string    // content of the navigation document outside its <nav> elements (a paragraph before them); "" = none
 	NavLabel     func(i int) string
 	Guide        bool     // EPUB 2 <guide>
 	Extra        []Member // extra members verbatim (META-INF/encryption.xml, META-INF/rights.xml, …)
@@ -370,7 +371,11 @@ func (b *Book) Members(r *rand.Rand) []Member {
 	if b.NavPath != "" {
 		var nav strings.Builder
 		nav.WriteString(`<?xml version="1.0" encoding="UTF-8"?>` + "\n<!DOCTYPE html>\n")
-		nav.WriteString(`<html xmlns="http://www.w3.org/1999/xhtml" xmlns:epub="http://www.idpf.org/2007/ops"><head><title>Contents</title></head><body><nav epub:type="toc" id="toc"><h2>Contents</h2><ol>`)
+		nav.WriteString(`<html xmlns="http://www.w3.org/1999/xhtml" xmlns:epub="http://www.idpf.org/2007/ops"><head><title>Contents</title></head><body>`)
+		if b.NavIntro != "" {
+			nav.WriteString(`<p>` + esc(b.NavIntro) + `</p>`)
+		}
+		nav.WriteString(`<nav epub:type="toc" id="toc"><h2>Contents</h2><ol>`)
 		for i := range b.Spine {
 			c := &b.Spine[i]
 			fmt.Fprintf(&nav, `<li><a href="%s">%s</a></li>`, esc(EncodeHref(RelPath(b.NavPath, c.Path), HrefMinimal, nil)), esc(label(i)))
